@@ -359,6 +359,30 @@ def check_replacement(ctx):
                 if not iso.ok or iso.value.adsorbate is not ads:
                     ctx.violate(core.make_violation({'check': 'upload-changes-registry', 'how': how, 'via': 'isotherm'},
                                                     f'after {how} of the shipped {ads.name!r} an isotherm created with {ads.name!r} is not linked to it', {}))
+        # a REFUSED deletion (adsorbate absent from that database / still referenced by an isotherm) leaves the registry as it was
+        for why in ('not in that database', 'referenced by an isotherm'):
+            for name in ('nitrogen', 'carbon dioxide'):
+                for arg_kind in ('object', 'name'):
+                    pygaps.ADSORBATE_LIST[:] = base
+                    ads = pygaps.Adsorbate.find(name)
+                    rs.create_template(work)
+                    if why == 'referenced by an isotherm':
+                        up = core.call(q.isotherm_to_db, BaseIsotherm(material='c20', adsorbate=name, temperature=300.0), db_path=work, autoinsert_material=True,
+                                       autoinsert_adsorbate=True, verbose=False)
+                        if not up.ok:
+                            raise core.HarnessError(f'upload failed: {up.brief()}')
+                    n0 = len(pygaps.ADSORBATE_LIST)
+                    d = core.call(q.adsorbate_delete_db, ads if arg_kind == 'object' else ads.name, db_path=work, verbose=False)
+                    ev += 1
+                    if d.ok:
+                        continue        # a successful deletion is C08's business
+                    nt += 1
+                    fnd = core.call(pygaps.Adsorbate.find, name)
+                    iso = core.call(BaseIsotherm, material='c20', adsorbate=name, temperature=300.0)
+                    if len(pygaps.ADSORBATE_LIST) != n0 or not fnd.ok or fnd.value is not ads or not iso.ok or iso.value.adsorbate is not ads:
+                        ctx.violate(core.make_violation({'check': 'refused-deletion-changes-registry', 'why': why},
+                                                        f'adsorbate_delete_db({name!r} as {arg_kind}) on a database where it is {why} was refused ({d.brief()[:60]}) but the registry changed: '
+                                                        f'{n0} -> {len(pygaps.ADSORBATE_LIST)} adsorbates, find({name!r}) {"ok" if fnd.ok else fnd.brief()[:80]}', {'name': name}))
     finally:
         pygaps.ADSORBATE_LIST[:] = base
     ctx.add('replacement', ev, nt)
